@@ -116,7 +116,7 @@ func (w *World) Explore(spec RunSpec, known map[string]bool, workers int, seed i
 					globals: map[*ssa.Global]*Cell{}, addrs: map[*Cell]uint64{}, builders: map[*Cell]StrV{},
 					syncMaps: map[*Cell]*MapV{}, wgs: map[*Cell]*wgState{}, mus: map[*Cell]*muState{},
 					prefix: prefix, funcs: map[*ssa.Function]int{}, q: map[string]int{}, stubsUsed: map[string]bool{},
-					entVC: map[*MapEnt]vclock{}, atomVC: map[*Cell]vclock{}, hostDone: make(chan struct{}, 16)}
+					entVC: map[*MapEnt]vclock{}, atomVC: map[*Cell]vclock{}, hostDone: make(chan struct{}, 4096)}
 				sol.send("(push)")
 				outcome := "ok"
 				inconcl := ""
